@@ -295,6 +295,13 @@ C10_FinishedFaithful ==
      /\ a.ntasks = b.ntasks /\ \A t \in TaskIds(j) : TaskSame(a.tasks[t], b.tasks[t])
 
 -----------------------------------------------------------------------------
+\* "no concurrency or queue capacity is held by ghosts": a request for a pipeline some of whose jobs came back from a restart
+\* (canceled, because they were unfinished) is decided exactly as the admission table says - the restored jobs hold nothing
+C10_NoGhostCapacity ==
+  (SchedOp /\ pre.cfg[st.last.p].def /\ \E j \in J : Known(pre, j) /\ pre.jobs[j].listed /\ pre.jobs[j].p = st.last.p /\ pre.jobs[j].rst)
+     => Observed(st.last.p) = Expected(st.last.p)
+
+-----------------------------------------------------------------------------
 (* C11 - shutdown *)
 
 ShutRet == Quiet /\ st.shut = "returned"
